@@ -23,15 +23,19 @@ EXIT_OK, EXIT_VIOLATION, EXIT_UNDECIDED = 0, 1, 2
 _scratch = None
 
 
+_LOCK = __import__("threading").RLock()  # checks run their layers in threads: scratch() / snapshot() must hand every thread the same directory
+
+
 def scratch():
     """fresh scratch dir outside /repo, /verif and /tmp; removed at exit"""
     global _scratch
-    if _scratch is None:
-        os.makedirs(SCRATCH_BASE, exist_ok=True)
-        _scratch = tempfile.mkdtemp(prefix="run-", dir=SCRATCH_BASE)
-        if not os.environ.get("VERIF_KEEP"):
-            atexit.register(lambda: shutil.rmtree(_scratch, ignore_errors=True))
-    return _scratch
+    with _LOCK:
+        if _scratch is None:
+            os.makedirs(SCRATCH_BASE, exist_ok=True)
+            _scratch = tempfile.mkdtemp(prefix="run-", dir=SCRATCH_BASE)
+            if not os.environ.get("VERIF_KEEP"):
+                atexit.register(lambda: shutil.rmtree(_scratch, ignore_errors=True))
+        return _scratch
 
 
 _snap = None
@@ -40,12 +44,13 @@ _snap = None
 def snapshot():
     """copy of /repo's WORKING TREE (not HEAD), without .git and build output"""
     global _snap
-    if _snap is None:
-        dst = os.path.join(scratch(), "repo")
-        subprocess.run(["rsync", "-a", "--exclude", "/target", "--exclude", "/.git", "--exclude", "target/",
-                        REPO.rstrip("/") + "/", dst + "/"], check=True)
-        _snap = dst
-    return _snap
+    with _LOCK:
+        if _snap is None:
+            dst = os.path.join(scratch(), "repo")
+            subprocess.run(["rsync", "-a", "--exclude", "/target", "--exclude", "/.git", "--exclude", "target/",
+                            REPO.rstrip("/") + "/", dst + "/"], check=True)
+            _snap = dst
+        return _snap
 
 
 def repo_head():
